@@ -51,9 +51,10 @@ Definition stair_of (N : Z) : f32 := fdiv (of_Z N) f_12.
 Definition win_lo (N : Z) : f32 := fsub (stair_of N) HYST.
 Definition win_hi (N : Z) : f32 := fadd (fadd (stair_of N) SEMITONE) HYST.
 
-(** is the previously reported note kept for input [v]? *)
+(** is the previously reported note kept for input [v]? (the input is clamped to [0, V_MAX] first) *)
 Definition keeps (q : quant) (v : f32) : bool :=
-  bit_allowed (q_allowed q) (note_new (c_note (q_cached q) mod 12)) && in_window (q_cached q) v.
+  bit_allowed (q_allowed q) (note_new (c_note (q_cached q) mod 12))
+  && in_window (q_cached q) (clamp_vin v).
 
 (** the note numbers reported by a sequence of conversions *)
 Fixpoint convert_seq (q : quant) (vs : list f32) : list Z :=
